@@ -15,6 +15,18 @@ CLAIMS = {
         "Trusts the generators' coverage of each version grammar (DESIGN §6); wildcard patterns are treated as outside the version domain; two listed Maven findings are stepped around by narrow classes (known_findings.txt).",
         "DESIGN.md §7 C01",
     ),
+    "C09": (
+        "property-based testing (rapid): pointwise set-semantics oracle over generated constraint pairs and boundary-derived candidate versions; native Go fuzzing in the thorough tier",
+        "Generated-input search: pairs of grammar-generated constraints (Default, NPM, Cargo, Go) are united and intersected on freshly parsed operands and every candidate derived from the operands' bounds (plus random versions) is checked against the pointwise meaning: union = or, intersection = and (release versions; all versions under prerelease-inclusive matching through the set text), Empty() matches nothing, commutativity, || permutation invariance, argument not modified. Holds on everything explored; not a proof.",
+        "Trusts Constraint.MatchVersion of a single parsed constraint as the meaning of the operand (C03 owns that); three listed findings are stepped around by narrow classes (known_findings.txt).",
+        "DESIGN.md §7 C09",
+    ),
+    "C10": (
+        "property-based testing (rapid): round-trip oracle Parse(Canon(v)) over generated versions of nine systems; native Go fuzzing in the thorough tier",
+        "Generated-input search: grammar-generated and neighbour-mutated versions of the nine systems are canonicalised, re-parsed, compared with the original and re-canonicalised (both showBuild values); equal canonical strings must compare equal; pypi.CanonVersion must agree with Parse+Canon and be the identity on unparsable text. Holds on everything explored; not a proof.",
+        "Trusts the generators' coverage of each version grammar; RubyGems prerelease versions and wildcard patterns are outside the domain as the property states.",
+        "DESIGN.md §7 C10",
+    ),
 }
 
 NOT_YET = "check under construction in this session (not yet claimed)"
